@@ -27,8 +27,9 @@ Obl(o, ev) ==
     IF ~(ev.how \in {"raise", "return", "self-cancel"}) \/ ~r.known \/ r.kind # "http" \/ s.disc > 0 \/ ~Healthy(o)
        \/ r.rst
     THEN {}
-    ELSE (IF ~s.rstart /\ w.heads = 0 THEN {<<"no-500", a>>} ELSE {})
-    \cup (IF s.rstart /\ ~s.final /\ w.ends = 0 /\ w.framing # "close" /\ s.sendExc = 0
+    \* (a response start the server refused - no send of this instance ever succeeded - started nothing)
+    ELSE (IF (~s.rstart \/ s.sendOk = 0) /\ w.heads = 0 THEN {<<"no-500", a>>} ELSE {})
+    \cup (IF s.rstart /\ s.sendOk > 0 /\ ~s.final /\ w.ends = 0 /\ w.framing # "close" /\ s.sendExc = 0
           THEN {<<"not-terminated", a>>} ELSE {})
     \cup (IF ev.how = "raise" THEN {<<"not-logged", a>>} ELSE {})
 
@@ -65,7 +66,7 @@ PStep(p, o, ev, o2) ==
             LET a == ev.app s == App(o, a) IN
             [p EXCEPT !.due = @ \cup Obl(o, ev),
                       !.excAt = IF ev.how = "raise" THEN o.excLogs ELSE @,
-                      !.aborted = IF ev.how \in {"raise", "return", "self-cancel"} /\ s.rstart /\ ~s.final
+                      !.aborted = IF ev.how \in {"raise", "return", "self-cancel"} /\ s.rstart /\ s.sendOk > 0 /\ ~s.final
                                      /\ Wire(o, a).ends = 0
                                   THEN @ \cup {a} ELSE @]
       [] ev.e = "quiescent" -> [p EXCEPT !.due = {}]
